@@ -1180,5 +1180,21 @@ func main() {
 	}
 	fmt.Println("]")
 	fmt.Println()
+	fmt.Println("/-- type assertions without the comma-ok form in lib/action and lib/query/built_in_command.go: ⟨file, function, expression, inside the matching type-switch clause, occurrences⟩ -/")
+	fmt.Println("def uncheckedAssertions : List AssertFact := [")
+	as := uncheckedAssertions(pkgs)
+	for i, a := range as {
+		sep := ","
+		if i == len(as)-1 {
+			sep = ""
+		}
+		b := "false"
+		if a.safe {
+			b = "true"
+		}
+		fmt.Printf("  ⟨%s, %s, %s, %s, %d⟩%s\n", leanStr(a.file), leanStr(a.fn), leanStr(a.expr), b, a.count, sep)
+	}
+	fmt.Println("]")
+	fmt.Println()
 	fmt.Println("end Csvq.Gen")
 }
